@@ -57,6 +57,7 @@
  */
 void snoopy_error_handler (char const * const errorMsg)
 {
+    static __thread int errorDispatchInProgress = SNOOPY_FALSE;
     const snoopy_configuration_t * CFG;
     char errorMsgFormatted[SNOOPY_ERROR_MSG_BUF_SIZE];
     errorMsgFormatted[0] = '\0';
@@ -70,5 +71,15 @@ void snoopy_error_handler (char const * const errorMsg)
     snprintf(errorMsgFormatted, SNOOPY_ERROR_MSG_BUF_SIZE, "SNOOPY ERROR: %s", errorMsg);
     errorMsgFormatted[SNOOPY_ERROR_MSG_BUF_SIZE-1] = '\0';
 
+    /*
+     * The output used for dispatching may itself run into an error (i.e. devlog
+     * output with an oversized syslog_ident) and end up here again - do not
+     * recurse endlessly.
+     */
+    if (SNOOPY_TRUE == errorDispatchInProgress) {
+        return;
+    }
+    errorDispatchInProgress = SNOOPY_TRUE;
     snoopy_action_log_message_dispatch(errorMsg);
+    errorDispatchInProgress = SNOOPY_FALSE;
 }
